@@ -197,6 +197,16 @@ func (L *Loader) ifaceSpec(cc *ssa.CallCommon) *FuncSpec {
 	return nil
 }
 
+func (L *Loader) funcTypeSpec(T types.Type) *FuncSpec {
+	if sp, ok := L.specs.Funcs["functype:"+typeKey(T)]; ok {
+		return sp
+	}
+	if sp, ok := L.specs.Funcs["functype:"+typeKey(T.Underlying())]; ok {
+		return sp
+	}
+	return nil
+}
+
 func (L *Loader) inlinablePkg(fn *ssa.Function) bool {
 	p := pkgOf(fn)
 	if p == nil {
